@@ -340,6 +340,12 @@ func (s *S) Run(c *scen.Ctx) {
 					simrt.Sleep(time.Duration(1+simrt.Draw(50, "c10.pausems")) * time.Millisecond)
 				}
 			}
+			if simrt.Draw(3, "c10.halfclose") == 2 {
+				// the client has nothing more to send and says so (FIN); it keeps reading:
+				// requests the server has read, queued ones included, are still answered
+				c.Count("fault.client_half_close", 1)
+				cn.(*simnet.TCPConn).CloseWrite()
+			}
 		})
 	}
 	wg.Wait()
